@@ -237,27 +237,24 @@ def _is_parent_param(s):
 
 
 def _check_record_many_loop(chk, f):
+    from props.common import iteration_context
+
     recs = [c for c in nonforeign_calls(f) if callee_method_name(c) == "record"]
     where = f.path
     if len(recs) != 1:
         return chk.ob("C04.c", where, False, f"expected exactly one record() call site in the loop, found {len(recs)}", f.loc())
     c = recs[0]
-    if not in_cycle(c.body, c.bb):
-        return chk.ob("C04.c", where, False, "record() is not inside a loop: record_many would record once", c.loc())
+    rng, why = iteration_context(c)
+    if rng is None:
+        return chk.ob("C04.c", where, False, f"record() is not run once per iteration of a loop over 0..count ({why}): record_many would not record `count` times", c.loc())
     a = arg_syms(c)
     if not ((sym_arg(a[0]) or (None,))[0] == 0 and (sym_arg(a[1]) or (None,))[0] == 1):
         return chk.ob("C04.c", where, False, f"record called with ({sym_str(a[0])}, {sym_str(a[1])}), expected (self, value)", c.loc())
-    # the iterated range is 0..count
-    sy = Sym(c.fn)
-    rng = None
-    for cs in nonforeign_calls(f):
-        if cs.is_("IntoIterator::into_iter"):
-            rng = strip_sym(sy.operand(cs.args[0]))
-    if rng is None or rng[0] != "agg" or not (rng[5] or "").endswith("Range"):
-        return chk.ob("C04.c", where, False, f"loop does not iterate a half-open range: {sym_str(rng) if rng else None}", c.loc())
+    rng = strip_sym(rng)
+    if rng[0] != "agg" or not (rng[5] or "").endswith("Range"):
+        return chk.ob("C04.c", where, False, f"loop does not iterate a half-open range: {sym_str(rng)[:80]}", c.loc())
     lo, hi = strip_sym(rng[3][0]), strip_sym(rng[3][1])
     ok = lo[:3] == ("const", "int", 0) and (sym_arg(hi) or (None,))[0] == 2
-    # no nested loops: the record call's cycle must be the only one containing it -- count distinct back edges reaching it
     return chk.ob("C04.c", where, ok, "for _ in 0..count { self.record(value) }" if ok else f"range is {sym_str(lo)}..{sym_str(hi)}, expected 0..count", c.loc())
 
 
